@@ -88,7 +88,7 @@ func (r *Run) TLC(o TLCOpts) (*TLCResult, error) {
 			return nil, err
 		}
 	}
-	args := []string{"-XX:+UseParallelGC", fmt.Sprintf("-Xmx%dm", o.HeapMB), "-Xss256m"}
+	args := []string{"-XX:+UseParallelGC", fmt.Sprintf("-Xmx%dm", o.HeapMB), "-Xss256m", "-Djava.io.tmpdir=" + dir} // TLC's own temporary directories stay in the scratch directory
 	if o.DFS {
 		args = append(args, "-Dtlc2.tool.queue.IStateQueue=StateDeque")
 	}
